@@ -480,8 +480,9 @@ class Interp:
     def crate_fn(self, callee):
         """resolves a call to a function of the crate; returns Fn or None"""
         raw = callee
-        m = re.match(r"^@([^:]+):(\w+)$", callee)          # harness prelude syntax: crate function named by source file
-        if m: return self.ix.method(m.group(2), m.group(1))
+        if callee.startswith("__verif::") and callee in self.ix.fns: return self.ix.fns[callee]      # harness prelude helper
+        m = re.match(r"^@([^:]+):(\w+)(?:#(\w+))?$", callee)          # harness prelude syntax: crate function named by source file [#SelfType]
+        if m: return self.ix.method(m.group(2), m.group(1), m.group(3))
         m = re.match(r"^<(.*) as (.*)>::(\w+)(?:::<.*>)?$", callee, re.S)
         if m:
             mapped = self.types.get(m.group(1).strip())
@@ -542,6 +543,7 @@ class Interp:
                 used("%s::deref" % tn); return ("val", a(0))
             if tn == "Arc":
                 v = a(0); used("Arc::deref")
+                if isinstance(v, LRef): v = self.project(st.frames[v.depth].loc[v.name], v.proj)      # &Arc<T> held in a local: the Arc's pointee
                 if isinstance(v, Ptr):
                     d = self.mem.get(v.key())
                     if d is not None and d["kind"] == "frozen": return ("val", d["value"])      # an Arc stored in memory: its pointee
@@ -662,6 +664,13 @@ class Interp:
         if last in ("spin_loop",) or c.endswith("hint::spin_loop"): used("hint::spin_loop"); return ("val", UNIT)
         if last == "fence" and "atomic" in c or c == "fence": used("atomic::fence (no-op under SC)"); return ("val", UNIT)
         # ---- atomics
+        if re.search(r"Atomic(?:::<\w+>|U32|U64|Bool|Usize)?::new$", callee): used("Atomic::new -> the value (object private to the thread until shared)"); return ("val", a(0))
+        if re.search(r"slice::from_raw_parts(_mut)?(::<.*>)?$", callee, re.S):
+            p = a(0)
+            if not isinstance(p, Ptr): raise EncodingError("from_raw_parts on " + sx(p))
+            self.memdecl(Ptr(p.root, p.path, BV(64, 0)), "slice::from_raw_parts"); used("slice::from_raw_parts(_mut) over a declared shared array")
+            return ("val", Ptr(p.root, p.path))
+        if c == "__verif::await_others": used("harness barrier: wait until the publisher threads have returned"); return ("vis", ("await",))
         if re.search(r"Atomic(?:::<\w+>|U32|U64|Usize)?::fetch_update(::<.*>)?$", callee, re.S):
             # std's fetch_update is a load + closure + compare_exchange_weak retry loop: encoded through the harness prelude's rendition of it
             f = self.ix.fns.get("__verif::fetch_update")
@@ -671,6 +680,17 @@ class Interp:
         m = re.search(r"Atomic(?:::<(\w+)>|U32|U64|Bool|Usize)?::(load|store|swap|fetch_add|fetch_sub|compare_exchange|compare_exchange_weak)$", callee)
         if m and ("atomic::Atomic" in callee or "Atomic::<" in callee or "AtomicU" in callee or "AtomicBool" in callee):
             p = a(0)
+            if isinstance(p, LRef):
+                # an atomic that lives in an object private to this thread (e.g. the cursor of a log subscriber): plain local semantics
+                cur = self.project(st.frames[p.depth].loc[p.name], p.proj); op = m.group(2); used("Atomic::%s on a thread-private object (local)" % op)
+                if op == "load": return ("val", cur)
+                if op == "store": self.write_local(st, p.depth, p.name, p.proj, a(1)); return ("val", UNIT)
+                if op == "swap": self.write_local(st, p.depth, p.name, p.proj, a(1)); return ("val", cur)
+                if op == "fetch_add": self.write_local(st, p.depth, p.name, p.proj, cur + a(1)); return ("val", cur)
+                if op == "fetch_sub": self.write_local(st, p.depth, p.name, p.proj, cur - a(1)); return ("val", cur)
+                okc = cur == a(1)
+                self.write_local(st, p.depth, p.name, p.proj, z3.If(okc, a(2), cur))
+                return ("val", Enum("Result", z3.If(okc, BV(64, 0), BV(64, 1)), {0: [cur], 1: [cur]}))
             if not isinstance(p, Ptr): raise EncodingError("atomic op on non-shared pointer " + sx(p))
             d = self.memdecl(p, "atomic " + m.group(2))
             op = m.group(2); used("Atomic::" + op)
